@@ -33,6 +33,8 @@ def _num(s):
     if isinstance(s, (int, float)):
         return s
     s = str(s)
+    if s.startswith("float:"):
+        return float.fromhex(s[6:])
     if "/" in s:
         return float(fractions.Fraction(s))
     try:
@@ -306,7 +308,8 @@ def explore_case(args):
                                deadline=t0 + opts.get("case_timeout_s", 600),
                                solver_timeout_ms=opts.get("solver_timeout_ms", 20000),
                                abstract_mul=getattr(mod, "ABSTRACT_MUL", False), seed=0,
-                               stop_on_violation=opts.get("stop_on_violation", True))
+                               stop_on_violation=opts.get("stop_on_violation", True),
+                               backend=case.get("backend", getattr(mod, "BACKEND", "z3")))
         # replay candidates concretely
         confirmed, spurious = [], []
         seen = set()
